@@ -414,6 +414,24 @@ void caseHistory(vrt::Case& c)
   }
   shared_ptr<AbstractNumericalDerivative> nd = makeND(scheme, ftype, F);
   if (!defaultStep) nd->setInterval(h);
+  // Sometimes the wrapper has served another selection before (a re-used wrapper): the earlier selection must leave no
+  // trace - variables it contained and the final one drops are delegated again, slots are re-assigned.
+  if (rng.chance(0.4))
+  {
+    vector<size_t> pre;
+    for (size_t i = 0; i < n; ++i) if (rng.chance(0.7)) pre.push_back(i);
+    if (pre.empty()) pre.push_back(rng.below(n));
+    rng.shuffle(pre);
+    vector<string> preNames;
+    for (size_t i : pre) preNames.push_back("v" + str(i));
+    vrt::step("earlier selection setParametersToDerivate(" + vrt::vecStr(preNames) + ") + full update");
+    nd->setParametersToDerivate(preNames);
+    vrt::Outcome po = vrt::capture([&] { nd->setParameters(F->getParameters()); });
+    (void)po; // next to a bound with cross derivatives the three-point scheme may legitimately raise
+    bool drops = false;
+    for (size_t i : pre) if (find(sel.begin(), sel.end(), i) == sel.end()) drops = true;
+    vrt::cover(sname + ":reselect:" + (drops ? "drops-variable" : "superset-or-reorder"));
+  }
   nd->setParametersToDerivate(selNames);
   nd->enableSecondOrderCrossDerivatives(cross);
   vrt::expect(nd->getInterval() == h && nd->enableSecondOrderCrossDerivatives() == cross, "configuration.kept", sname, [&] { return desc + " : getInterval() = " + str(nd->getInterval()); });
